@@ -266,10 +266,16 @@ func clientFirstFrame(do func(*ldap.Conn)) ([]byte, error) {
 	rc := &rawClient{c: b}
 	f, err := rc.readFrame(5 * time.Second)
 	b.Close()
-	conn.Close()
+	// go-ldap's Close waits for its own goroutines; never let that hold up the stream
+	closed := make(chan struct{})
+	go func() { conn.Close(); close(closed) }()
+	select {
+	case <-closed:
+	case <-time.After(3 * time.Second):
+	}
 	select {
 	case <-done:
-	case <-time.After(5 * time.Second):
+	case <-time.After(3 * time.Second):
 	}
 	return f, err
 }
